@@ -157,6 +157,9 @@ def run(rep, tier):
         ("solve before setup", sc.CTOR0, [sc.SOLVE, sc.SETUP, sc.SOLVE]),
         ("extrapolation enabled after setup", sc.CTOR0, [sc.SETUP, sc.S("ext", 3), sc.SOLVE, sc.SETUP, sc.SOLVE]),
         ("fmg enabled after setup", sc.CTOR0, [sc.SETUP, sc.S("fmg", True), sc.SOLVE, sc.S("ext", 2), sc.SOLVE]),
+        ("fmg enabled after a setup with extrapolation, three levels", dict(sc.CTOR0, ext=1), [sc.SETUP, sc.SOLVE, sc.S("fmg", True), sc.SOLVE, sc.SETUP, sc.SOLVE]),
+        ("fmg enabled after a setup with extrapolation, two levels (legitimate)", dict(sc.CTOR0, ext=3, L=2), [sc.SETUP, sc.S("fmg", True), sc.SOLVE, sc.SOLVE]),
+        ("fmg disabled / extrapolation mode changed after setup", dict(sc.CTOR0, ext=3, fmg=True), [sc.SETUP, sc.S("fmg", False), sc.SOLVE, sc.S("ext", 2), sc.SOLVE, sc.S("ext", 1), sc.SOLVE]),
         ("extrapolation disabled after setup", dict(sc.CTOR0, ext=1), [sc.SETUP, sc.S("ext", 0), sc.SOLVE, sc.S("ext", 3), sc.SOLVE]),
         ("both tolerances off, no exact", dict(sc.CTOR0, exact=False, absOn=False, relOn=False, maxIter=2), [sc.SETUP, sc.SOLVE, sc.S("maxIter", 0), sc.SOLVE]),
     ]]
